@@ -556,11 +556,16 @@ def r16_4(ctx, run, rule='R16.4'):
     b = f.bodies.get('keypath::key_paths')
     chars = set()
     if b is not None:
-        for q in Explorer(b, max_paths=100).explore():
-            for e in q.calls():
-                tk = tok_of(e[4])
-                if tk and tk[0] == 'char':
-                    chars.add(tk[1])
+        # the list grammar and the private helpers it is split into
+        for pth in sorted(x for x in ctx.cg.reachable(['keypath::key_paths']) if x.startswith('keypath::') and x in f.bodies):
+            cb = f.bodies[pth]
+            if cb.kind == 'Promoted':
+                continue
+            for q in Explorer(cb, max_paths=100).explore():
+                for e in q.calls():
+                    tk = tok_of(e[4])
+                    if tk and tk[0] == 'char':
+                        chars.add(tk[1])
     ok = {'{', '}', ','} <= chars
     (run.proved if ok else run.violation)(rule, 'keypath::key_paths', 'punctuation', 'grammar uses { , }' if ok else f'grammar characters {sorted(chars)}')
 
